@@ -94,6 +94,7 @@ def run(ctx: Context) -> None:
     mi = Matcher(ctx, ip)
     poly_p = ip.params[1]
     inter = mi.stmt(f"$x = {poly_p}.intersection(self.line)") or mi.stmt(f"$x = self.line.intersection({poly_p})")
+    dflt = lp_ = None
     if inter is None and len(ip.params) > 2:
         # the part of the path to intersect is a parameter that stands for the whole path when it is not given
         lp_ = ip.params[2]
@@ -103,6 +104,8 @@ def run(ctx: Context) -> None:
             mi.stmt(f"{lp_} = self.line if {lp_} is None else {lp_}") is not None
         if dflt is not None and is_none(dflt) and fallback:
             inter = mi.stmt(f"$x = {poly_p}.intersection({lp_})") or mi.stmt(f"$x = {lp_}.intersection({poly_p})")
+        if inter is None and dflt is not None and is_none(dflt):
+            inter = mi.stmt(f"$x = {poly_p}.intersection(self.line if {lp_} is None else {lp_})") or mi.stmt(f"$x = (self.line if {lp_} is None else {lp_}).intersection({poly_p})")
     # (if/else statements assigning one name are normalised to a conditional expression)
     split = [n for n in walk_no_nested(ip.node) if isinstance(n, ast.Assign) and isinstance(n.value, ast.IfExp)
              and isinstance(n.value.test, ast.Call) and dotted(n.value.test.func) == 'isinstance']
